@@ -14,6 +14,7 @@ import z3
 
 from . import symx
 from . import stubs  # noqa: F401  (installs the sequential trim_zeros)
+from . import ang  # noqa: F401  (installs SR.radians / SR.arccos)
 
 VERIF = os.path.dirname(os.path.dirname(os.path.abspath(__file__)))
 REPO = os.environ.get('VERIF_REPO', '/repo')
